@@ -118,7 +118,9 @@ def handleLbl (fs : List (String × String)) : String := Id.run do
   let some buf := (get fs "buf").bind hexBytes | return "PARSE buf"
   let add := getD fs "add" "?"
   let rm := getD fs "rm" "?"
-  let label : Bytes := List.replicate ll (UInt8.ofNat lc)
+  let label : Bytes := match (get fs "lhex").bind hexBytes with
+    | some l => if l.length == ll then l else List.replicate ll (UInt8.ofNat lc)
+    | none => List.replicate ll (UInt8.ofNat lc)
   if ll > Gen.c_LabelMaxSize then
     return verdict (add == "err:tooLong") (if add == "panic" then some "panic" else none) false "lbl-toolong" ""
   let out := addLabel label buf
